@@ -533,6 +533,12 @@ func genBundle(t *rapid.T) bundlekit.Spec {
 		e := bundlekit.ExSpec{URL: u, Status: rapid.SampledFrom([]int{200, 200, 404, 301}).Draw(t, "status"),
 			BodyLen: rapid.SampledFrom([]int{0, 1, 15, 16, 17, 32, 100, 4096, 5000}).Draw(t, "bodylen"), BodyTag: rapid.Uint64().Draw(t, "bodytag")}
 		e.Headers = append(gen.Headers(t, "hdr", 3), gen.HeaderKV{Name: "Content-Type", Values: []string{"text/plain"}})
+		if rapid.IntRange(0, 3).Draw(t, "priorce") == 0 {
+			// a response that already carries a content coding (a gzip'ed resource): the MI coding is
+			// added as a further value of the same field
+			e.Headers = append(e.Headers, gen.HeaderKV{Name: rapid.SampledFrom([]string{"Content-Encoding", "content-encoding"}).Draw(t, "cename"),
+				Values: rapid.SampledFrom([][]string{{"gzip"}, {"br"}, {"gzip", "br"}, {"identity"}}).Draw(t, "cevals")})
+		}
 		s.Exchanges = append(s.Exchanges, e)
 	}
 	if s.Version == "b1" {
